@@ -280,6 +280,40 @@ func Register(name, owner, email, refresh, retry, expire, ttl) (ok)
   ensures [C10] ok && !old(store).has(nkey(name)) ==> notifs == old(notifs) ++ [Transfer(nil, owner, 1, name)]
   ensures [C10] ok && old(store).has(nkey(name)) ==> notifs == old(notifs) ++ [Transfer(old(ns(store, name)).Owner, owner, 1, name)]
 
+// renew extends the expiration of a live name by whole years (1..10, a year = 365 days), never beyond ten years ahead for
+// non-TLD names; nothing but the expiration changes; one Renew notification
+func Renew(name, years) (r)
+  requires [Pre] store.has(nkey(name)) ==> ns(store, name).Name == name
+  ensures [C10] 1 <= years && years <= 10
+  ensures [C10] old(store).has(nkey(name)) && now < old(ns(store, name)).Expiration
+  ensures [C10] store.has(nkey(name)) && ns(store, name).Expiration == old(ns(store, name)).Expiration + years * 31536000000 && r == ns(store, name).Expiration
+  ensures [C10] ns(store, name).Owner == old(ns(store, name)).Owner && ns(store, name).Admin == old(ns(store, name)).Admin
+        && isnil(ns(store, name).Admin) == isnil(old(ns(store, name)).Admin) && ns(store, name).Name == old(ns(store, name)).Name
+  ensures [C10] len(split(name, ".")) > 1 ==> ns(store, name).Expiration <= now + 315360000000
+  ensures [C10] forall k Bytes {store.opt(k)} :: k != nkey(name) ==> store.opt(k) == old(store).opt(k)
+  ensures [C10] notifs == old(notifs) ++ [Renew(name, old(ns(store, name)).Expiration, ns(store, name).Expiration)]
+
+// the read API: ownerOf answers only for registered non-TLD names whose whole parent chain (the name included) is
+// unexpired, and then with the stored owner; balanceOf/totalSupply read the counters; tokensOf(o) walks the values stored
+// under 0x02 ++ o (one entry per name recorded for o: see updateBalance, Transfer, Register)
+func OwnerOf(tokenID) (r)
+  pure
+  ensures [C10] len(split(tokenID, ".")) > 1 && store.has(nkey(tokenID)) && r == ns(store, tokenID).Owner
+  ensures [C10] forall j Int {sfx(split(tokenID, "."), j)} :: 1 <= j && j < len(split(tokenID, ".")) ==> okName(store, sfx(split(tokenID, "."), j))
+  ensures [C10] now < ns(store, tokenID).Expiration
+
+func BalanceOf(owner) (r)
+  pure
+  ensures [C10] len(owner) == 20 && r == nbal(store, owner)
+
+func TotalSupply() (r)
+  pure
+  ensures [C10] r == tsupply(store)
+
+func TokensOf(owner) (r)
+  ensures [C10] len(owner) == 20 && r.prefix == "\x02" ++ owner && r.opts == 4 && r.pos == 0 && r.store == old(store)
+  ensures [C10] store == old(store) && notifs == old(notifs)
+
 // a name is available exactly when it (or one of its parents) is missing or expired, and the parent holds no conflicting record
 func IsAvailable(name) (r)
   pure
